@@ -1014,7 +1014,7 @@ func tallCase(c *ev.Case) {
 // time. Independent objects must not disturb each other (package-level state).
 func parallelCase(c *ev.Case) {
 	g := c.Rng.Range(4, 8)
-	per := c.Rng.Pick(3000, 8000)
+	per := c.Rng.Pick(20000, 40000)
 	seeds := make([]uint64, g)
 	for i := range seeds {
 		seeds[i] = c.Rng.Uint64()
@@ -1036,13 +1036,26 @@ func parallelCase(c *ev.Case) {
 			a := listz.NewSkipList[int, int]()
 			b := listz.NewSkipListWithCmp[int, int](cmpInt)
 			m := map[int]int{}
+			var live []int
 			for i := 0; i < per; i++ {
-				k := rng.Intn(500)
-				if rng.Chance(2, 3) {
+				// mostly keys that are not in the list yet: only the insertion of a new
+				// key draws a tower height, which is where lists could share state
+				k := rng.Intn(1 << 20)
+				if len(live) > 0 && rng.Chance(1, 8) {
+					k = live[rng.Intn(len(live))]
+				}
+				if len(live) < 300 || rng.Chance(1, 2) {
+					if _, ok := m[k]; !ok {
+						live = append(live, k)
+					}
 					a.Set(k, i)
 					b.Set(k, i)
 					m[k] = i
 				} else {
+					j := rng.Intn(len(live))
+					k = live[j]
+					live[j] = live[len(live)-1]
+					live = live[:len(live)-1]
 					a.Remove(k)
 					b.Remove(k)
 					delete(m, k)
